@@ -114,6 +114,14 @@ func (ec *evalCtx) specCall(call *ast.CallExpr) Value {
 			panic(unsupported("inL: second argument must be a language name"))
 		}
 		s := scalar(arg(0))
+		if s.Op == "str.++" && ec.e().catClosed(lang.Name) {
+			// L·L ⊆ L (decided by the language back end on this run): a concatenation of members is a member
+			var parts []*Term
+			for _, a := range s.Args {
+				parts = append(parts, ec.e().inL(a, lang.Name))
+			}
+			ec.st.Assume(Implies(And(parts...), ec.e().inL(s, lang.Name)))
+		}
 		return ec.e().inL(s, lang.Name)
 	case "trimLeft", "trimRight", "trimmed":
 		need(1)
@@ -121,6 +129,15 @@ func (ec *evalCtx) specCall(call *ast.CallExpr) Value {
 	case "pos3":
 		need(3)
 		return &StructV{Names: []string{"Index", "Line", "Col"}, F: map[string]Value{"Index": arg(0), "Line": arg(1), "Col": arg(2)}}
+	case "errvar":
+		// errvar(): the variable named err if one is in scope (nil otherwise) - for clauses shared by many functions
+		need(0)
+		if obj, ok := ec.st.names["err"]; ok {
+			if v, ok := ec.st.vars[obj]; ok {
+				return v
+			}
+		}
+		return Int(0)
 	case "runeStart":
 		// runeStart(s, k): byte offset k of s is where `for range s` (equivalently repeated DecodeRuneInString)
 		// starts decoding a rune. Facts are published by range loops over s.
